@@ -42,7 +42,7 @@ def check_disqualified_arm(rep, prog):
             return True    # the issue set is non-empty
         return None
     sc = Scenario(args={'subject': Sym('subject', types={'PGPUID'}, nonnull=True), 'signature': Const(None)},
-                  oracle=oracle, inline=lambda f: False, axioms={'(len(sspairs) == 0)': False})
+                  oracle=oracle, inline=lambda f: False, axioms={'(len(sspairs) == 0)': False, 'sspairs': True})
     outs = Interp(prog, sc).run(fi)
     rep.analysed['paths'] += len(outs)
     recs = []
